@@ -189,6 +189,12 @@ func (g *htmlGen) attrsFor(name string) []hAttr {
 		}
 		if r.Chance(1, 6) {
 			add("name", r.Pick([]string{"anchor", "id1"}))
+		} else if r.Chance(1, 6) {
+			// id and name on one anchor: equal (name is redundant), or different only by case (both are targets)
+			g.ids++
+			id := r.Pick([]string{"Top", "secA", "NOTE"}) + fmt.Sprint(g.ids)
+			add("id", id)
+			add("name", r.Pick([]string{id, strings.ToLower(id), strings.ToUpper(id), id + "x"}))
 		}
 	case "img":
 		add("src", r.Pick([]string{"a.png", " b.jpg ", "data:image/png;base64,iVBORw0KGgo=", "http://x/y.gif"}))
